@@ -277,6 +277,29 @@ def rule5_terminations(ctx, fl):
     ctx.floor('C11.5', 16)
 
 
+def rule4_delete(ctx, fl):
+    """a deleted key is not live: its destructor must not survive in the table the exit walk consults"""
+    v = ctx.view(NATIVE, roots=['myth_tls_key_allocator_dealloc'], stops=lib.SPIN_STOPS, flavour=fl)
+    d = ctx.need_fn(v, 'myth_tls_key_allocator_dealloc')
+    pushes = [st for st in d.stores_to('myth_tls_key_allocator.free')]
+    clr = [st for st in d.stores_to('myth_tls_key_entry.destructor') if isinstance(st.ops[0], dict) and st.ops[0].get('null')]
+    ctx.ob('C11.4', 'delete returns the key to the free list', len(pushes) == 1, 's->free = ke', loc=d.loc)
+    unl = call_sites(d, lib.SPIN_UNLOCK)
+    for p_ in pushes:
+        # the cleared cell is the cell being freed, and it is cleared whenever it is freed, inside the critical section
+        okc = False
+        for c in clr:
+            g = d.get(d.strip(c.ops[1])) if isinstance(c.ops[1], str) else None
+            cell = g.d['base'] if g is not None and g.op == 'getelementptr' else None
+            same_cell = cell is not None and (lib.same_addr(d, cell, p_.ops[0]) or d.sources(cell) == d.sources(p_.ops[0]))
+            before_unlock = all(not (d.dominates_f(p_, u_) and d.dominates_f(u_, c)) for u_ in unl)
+            if same_cell and (d.dominates_f(c, p_) or d.dominates_f(p_, c)) and before_unlock:
+                okc = True
+        ctx.ob('C11.4', 'delete clears the destructor of the freed key', okc,
+               'the exit walk calls ka->keys[k].destructor for every slot it finds: a thread still holding a value under a deleted key '
+               'must not have it destructed (the key is no longer live)', loc=p_.loc)
+
+
 def run(ctx):
     for fl in flavours(ctx):
         ctx.unit = fl
@@ -285,12 +308,15 @@ def run(ctx):
                      stops=('myth_tls_tree_node_free', 'myth_free') + lib.SPIN_STOPS, flavour=fl)
         rule123_walk(ctx, v)
         rule4_leaf(ctx, v)
+        rule4_delete(ctx, fl)
         rule5_terminations(ctx, fl)
 
 
 TLS = 'src/myth_tls_func.h'
 SCHED = 'src/myth_sched_func.h'
 MUTANTS = [
+    {'name': 'deleted key keeps its destructor (original defect D17)', 'expect': 'C11.4',
+     'edits': [(TLS, "  ke->destructor = 0;\n  /* push the cell to the free list */", "  /* push the cell to the free list */")]},
     {'name': 'destructor walk stops at the first empty child (original defect D4a)', 'expect': 'C11.1',
      'edits': [(TLS, "      if (c) {\n\ts += myth_tls_call_destructors_rec(c, depth + 1, c_base, c_stride, ka);\n      }\n      c_base += c_stride;",
                 "      if (!c) break;\n      s += myth_tls_call_destructors_rec(c, depth + 1, c_base, c_stride, ka);\n      c_base += c_stride;")]},
